@@ -45,6 +45,10 @@ pub enum StoreFault {
     AppendZeros { n: usize },
     /// cut the file right after chunk record i (applied after the structural faults)
     CutAfterRecord { i: usize },
+    /// not a change to the stored bytes: the k-th read call of the decryptor is interrupted once
+    /// (ErrorKind::Interrupted, to be retried). Combined with a stored fault: a transient interruption
+    /// must never turn a file that has to be refused into an accepted one.
+    InterruptRead { k: usize },
 }
 
 #[derive(Serialize, Deserialize, Clone, Debug, PartialEq)]
@@ -282,6 +286,7 @@ fn fault_class(f: &StoreFault, hl: usize) -> String {
         StoreFault::AppendZeros { .. } => "appendzeros".into(),
         StoreFault::CutAfterRecord { .. } => "cutafter".into(),
         StoreFault::AppendRecord { .. } => "appendrec".into(),
+        StoreFault::InterruptRead { .. } => "interruptread".into(),
     }
 }
 
@@ -299,8 +304,14 @@ impl A3 {
         };
         let min_cap = s.rs.caps.iter().copied().min().unwrap_or(usize::MAX).max(1);
         let trace = Trace::new(budget_for(fp.len() + 300, min_cap.min(64)) + 40 * (fp.len() as u64 / 32 + 1), false);
+        let mut rs = s.rs.clone();
+        for f in &s.faults {
+            if let StoreFault::InterruptRead { k } = f {
+                rs.faults.push((*k, IoFault::Interrupted));
+            }
+        }
         crate::alloc::start();
-        let d = run_decrypt(&tmode, &fp, &s.rs, &WriteScript::default(), &trace, Some(monitor), None);
+        let d = run_decrypt(&tmode, &fp, &rs, &WriteScript::default(), &trace, Some(monitor), None);
         let mem = crate::alloc::stop();
         // C09 boundedness, relative: rejecting (or accepting) F' must not cost more memory or more
         // key derivations than decrypting the authentic target file through the same seams
@@ -589,6 +600,16 @@ impl Family for A3 {
         for (fi, f) in st.iter().enumerate() {
             for i in 0..f.recs.len().min(4) {
                 one(vec![StoreFault::AppendRecord { from_file: fi, i }]);
+            }
+        }
+        // ... and extended files with one read call interrupted (every position up to past the
+        // end-of-stream probe). Whether the decryptor retries the interrupted call or gives up with a
+        // read error is C10's business (family a2); here: it must not turn into acceptance.
+        let reads = 2 * t.recs.len().min(6) + 8;
+        for k in 0..reads {
+            one(vec![StoreFault::Append { bytes: Hx(vec![0x5a; 40]) }, StoreFault::InterruptRead { k }]);
+            if k % 3 == 0 {
+                one(vec![StoreFault::AppendRecord { from_file: base.target, i: 0 }, StoreFault::InterruptRead { k }]);
             }
         }
         let n = t.recs.len();
